@@ -13,7 +13,7 @@
 
 /* expand(a, axis, spacing, fill): `spacing` fill values between neighbours along axis: n -> n + (n-1)*spacing; dst index i holds a[i/(spacing+1)] when i % (spacing+1) == 0 */
 void h_expand(void){
-  u64 shape[3] = {1,1,1}, idx[4], os[4] = {0}, od = 0, ex[4] = {0}, src[3] = {0,0,0}; u32 data[CELLS], out = 0;
+  u64 shape[4] = {1,1,1,1}, idx[4], os[4] = {0}, od = 0, ex[4] = {0}, src[4] = {0,0,0,0}; u32 data[CELLS], out = 0;
   in_shape(shape, DIM); in_data(data, NCELL);
   i32 ax = in_i32(-DIM, DIM - 1); u64 an = norm_axis(ax, DIM);
   u64 sp = in_u64(0, MAXS); u32 fill = in_any32();
@@ -30,7 +30,7 @@ void h_expand(void){
 
 /* resize(a, dst_shape): nearest neighbour sampling, source index = floor(i * src_extent / dst_extent) per axis; dst extents 1..MAXD */
 void h_resize(void){
-  u64 shape[3] = {1,1,1}, dst[3] = {1,1,1}, idx[4], os[4] = {0}, od = 0, ex[4] = {0}, src[3] = {0,0,0}; u32 data[CELLS], out = 0;
+  u64 shape[4] = {1,1,1,1}, dst[4] = {1,1,1,1}, idx[4], os[4] = {0}, od = 0, ex[4] = {0}, src[4] = {0,0,0,0}; u32 data[CELLS], out = 0;
   in_shape(shape, DIM); in_data(data, NCELL);
   for (u64 k = 0; k < DIM; k++){ dst[k] = in_u64(1, MAXD); ex[k] = dst[k]; }
   in_index(idx, ex, DIM, MAXD - 1);
@@ -45,7 +45,7 @@ void h_resize(void){
 
 /* np.compress(condition, a, axis): condition a list of 1..min(4,n) truth values (shorter than n: the rest is not selected); axis in [-DIM, DIM) */
 void h_compress(void){
-  u64 shape[3] = {1,1,1}, idx[4], os[4] = {0}, od = 0, ex[4] = {0}, src[3] = {0,0,0}, cnt = 0, pos[4] = {0}; u32 data[CELLS], cond[4], out = 0;
+  u64 shape[4] = {1,1,1,1}, idx[4], os[4] = {0}, od = 0, ex[4] = {0}, src[4] = {0,0,0,0}, cnt = 0, pos[4] = {0}; u32 data[CELLS], cond[4], out = 0;
   in_shape(shape, DIM); in_data(data, NCELL);
   i32 ax = in_i32(-DIM, DIM - 1); u64 an = norm_axis(ax, DIM);
   u64 nc = in_u64(1, 4); ASSUME(nc <= shape[an]);
@@ -68,7 +68,7 @@ void h_compress(void){
 }
 /* np.compress(condition, a) (axis=None): flattened input */
 void h_compress_flat(void){
-  u64 shape[3] = {1,1,1}, idx[4] = {0}, os[4] = {0}, od = 0, cnt = 0, pos[4] = {0}; u32 data[CELLS], cond[4], out = 0;
+  u64 shape[4] = {1,1,1,1}, idx[4] = {0}, os[4] = {0}, od = 0, cnt = 0, pos[4] = {0}; u32 data[CELLS], cond[4], out = 0;
   in_shape(shape, DIM); in_data(data, NCELL);
   u64 numel = prod(shape, DIM);
   u64 nc = in_u64(1, 4); ASSUME(nc <= numel);
@@ -84,7 +84,7 @@ void h_compress_flat(void){
 
 /* np.diagflat(a, k): n = a.size + |k|; result[r, r+k] = a.flat[min(r, r+k)], zero elsewhere */
 void h_diagflat(void){
-  u64 shape[3] = {1,1,1}, idx[4], os[4] = {0}, od = 0, ex[4] = {0}; u32 data[CELLS], out = 0;
+  u64 shape[4] = {1,1,1,1}, idx[4], os[4] = {0}, od = 0, ex[4] = {0}; u32 data[CELLS], out = 0;
   in_shape(shape, DIM); in_data(data, NCELL);
   i32 k = in_i32(-MAXK, MAXK);
   u64 numel = prod(shape, DIM), n = numel + (u64)(k < 0 ? -k : k);
@@ -101,7 +101,7 @@ void h_diagflat(void){
 
 /* np.where(condition, x, y) on three arrays of one shape (broadcasting: C06) */
 void h_where(void){
-  u64 shape[3] = {1,1,1}, idx[4], os[4] = {0}, od = 0; u32 c[CELLS], x[CELLS], y[CELLS], out = 0;
+  u64 shape[4] = {1,1,1,1}, idx[4], os[4] = {0}, od = 0; u32 c[CELLS], x[CELLS], y[CELLS], out = 0;
   in_shape(shape, DIM); in_data(c, NCELL); in_data(x, NCELL); in_data(y, NCELL);
   in_index(idx, shape, DIM, MAXE - 1);
   int r = CAT(k_where, DIM)(shape, c, x, y, idx, DIM, os, &od, &out);
